@@ -65,6 +65,7 @@ class Info(object):
         self.coordvals = {}   # dim name -> list of float (1-D var named d)
         self.masked = []      # names of masked in-memory variables
         self.vglvls = None
+        self.nvars = None     # IOAPI: the NVARS attribute
         self.coords = ()
 
     @property
@@ -94,6 +95,13 @@ class Info(object):
         if len(self.vars) < 2:
             # no data variable: VAR is defined as max(NVARS, 1) and the
             # wrappers cannot keep VAR-LIST/NVARS/VAR/TFLAG coherent
+            return False
+        # the bookkeeping the wrappers rely on (C10's invariant) holds:
+        # NVARS == len(VAR) == number of data variables.  A result obtained
+        # from an object that had already lost the layout can look right
+        # structurally and still carry a stale NVARS (VAR=1, NVARS=2).
+        if self.nvars != self.dims['VAR'][0] or \
+                self.nvars != len(self.vars) - 1:
             return False
         for k, (vd, kind) in self.vars.items():
             if k == 'TFLAG':
@@ -168,6 +176,11 @@ def info_of_file(f):
             i.coordvals[d] = [float(x) for x in np.asarray(a).ravel()]
     if i.cls == 'ioapi' and hasattr(f, 'VGLVLS'):
         i.vglvls = [float(x) for x in np.asarray(f.VGLVLS).ravel()]
+    if i.cls == 'ioapi':
+        try:
+            i.nvars = int(getattr(f, 'NVARS'))
+        except Exception:
+            i.nvars = None
     i.coords = tuple(f.getCoords()) if hasattr(f, 'getCoords') else ()
     return i
 
@@ -193,6 +206,7 @@ def info_of_spec(fs):
             i.vars[v['name']] = (vd, 'f')
         i.vars['TFLAG'] = (('TSTEP', 'VAR', 'DATE-TIME'), 'i')
         i.vglvls = [float(x) for x in fs['vglvls']]
+        i.nvars = len(fs['vars'])
         i.coords = ('TFLAG',)
         i.disk = bool(fs.get('disk'))
         return i
